@@ -40,7 +40,13 @@ def labels_of(ev):
         return ['C12', 'C09', 'C02', 'C06', 'C01']
     if e == 'Exit':
         return TRIG_LABEL.get(ev['trig']['t'], []) + ['C06', 'C08']
-    return TRIG_LABEL.get(ev['trig']['t'], ['C12'])
+    # a task step: the properties of its trigger, and of the manager command it issues / whose reply it executes
+    lab = list(TRIG_LABEL.get(ev['trig']['t'], ['C12']))
+    if ev['trig']['t'] == 'BroadHave' and (e == 'Call' or ev.get('called')):
+        lab += MGR_LABEL['PieceCancel']           # the cancel path: reservation released, next piece requested
+    if e == 'Call':
+        lab += [x for x in MGR_LABEL.get(ev.get('cmd'), []) if x not in lab]
+    return lab
 
 
 # ------------------------------------------------------------------------------------------
@@ -328,7 +334,7 @@ def design_check(pid, tier, kinds, over=None, invs=ALL_INV, props=ALL_PROP, time
             f.write('  %s = %s\n' % (k, v) if k not in ('NBlocks',) else '  %s <- %s\n' % (k, v))
         f.write('  FrameKinds = {%s}\n' % ', '.join('"%s"' % k for k in kinds))
         f.write('VIEW MCView\nCONSTRAINT QBound\nINVARIANTS %s\nPROPERTIES %s\nCHECK_DEADLOCK FALSE\n' % (invs, props))
-    res = run_tlc('MC_Swarm', cfg, pid, workers=8 if tier == 'quick' else 14, timeout=timeout if tier == 'quick' else 4 * 3600, coverage=True, tag='design', xmx='12g' if tier == 'quick' else '24g')
+    res = run_tlc('MC_Swarm', cfg, pid, workers=int(os.environ.get('VERIF_WORKERS', 8 if tier == 'quick' else 14)), timeout=timeout if tier == 'quick' else int(os.environ.get('VERIF_DESIGN_TIMEOUT', 4 * 3600)), coverage=True, tag='design', xmx='12g' if tier == 'quick' else '24g')
     if res['violation']:
         import re
         m = re.search(r'(Invariant|property) (\w+) is violated', res['stdout'])
@@ -512,7 +518,7 @@ def check_c01(tier, replay=None):
 
 def check_c02(tier, replay=None):
     m = mult(tier)
-    plan = [(G.honest, 32 * m, {}), (G.handover, 10 * m, {}), (G.dupaddr, 8 * m, {})]
+    plan = [(G.honest, 32 * m, {}), (G.handover, 10 * m, {}), (G.dupaddr, 8 * m, {}), (G.endgame_cancel, 8 * m, {}), (G.nothing_to_assign, 8 * m, {})]
     return swarm_check('C02', tier, plan, need_actions=(), kinds= ['Unchoke', 'Bitfield', 'Piece', 'Have'],
                        design_over=dict(Fuel=3, BFMenu='{{1, 2}}') if tier == 'quick' else dict(Fuel=4, MaxQ=2),
                        extra_oracles=[oracle_c02], vacuity={'completions': 40}, replay=replay, live=True,
@@ -544,7 +550,7 @@ def check_c09(tier, replay=None):
 
 def check_c10(tier, replay=None):
     m = mult(tier)
-    plan = [(G.honest, 20 * m, {}), (G.adversarial, 20 * m, {}), (G.reassign, 25 * m, {}), ('model', 20 * m, {})]
+    plan = [(G.honest, 20 * m, {}), (G.adversarial, 20 * m, {}), (G.reassign, 25 * m, {}), (G.endgame_cancel, 12 * m, {}), ('model', 20 * m, {})]
     return swarm_check('C10', tier, plan, need_actions=('HPiece', 'HReply'), kinds= ['Unchoke', 'Choke', 'Bitfield', 'Piece'],
                        design_over=dict(NBlocks='N3b', Fuel=6, Peers='{a}', BFMenu='{{1, 2}}') if tier == 'quick' else dict(NBlocks='N3b', Fuel=5, BFMenu='{{1, 2}}'),
                        vacuity={'requests_written': 100, 'completions': 20}, replay=replay,
@@ -563,7 +569,7 @@ def check_c11(tier, replay=None):
 
 def check_c12(tier, replay=None):
     m = mult(tier)
-    plan = [(G.adversarial, 50 * m, {}), (G.honest, 6 * m, {}), (G.reassign, 30 * m, {}), (G.stale_choke, 10 * m, {}), (G.choke_race, 30 * m, {}), (G.dupaddr, 10 * m, {}), ('model', 30 * m, {})]
+    plan = [(G.adversarial, 50 * m, {}), (G.honest, 6 * m, {}), (G.reassign, 30 * m, {}), (G.stale_choke, 10 * m, {}), (G.choke_race, 30 * m, {}), (G.dupaddr, 10 * m, {}), (G.endgame_cancel, 8 * m, {}), (G.nothing_to_assign, 10 * m, {}), ('model', 30 * m, {})]
     return swarm_check('C12', tier, plan, need_actions=('MUnchoke', 'MChoke', 'MPieceDone', 'MKill'), kinds= ['Unchoke', 'Choke', 'Bitfield', 'Piece'] if tier == 'quick' else ['Unchoke', 'Choke', 'Bitfield', 'Piece', 'Have', 'Bad'],
                        design_over=dict(Fuel=3, BFMenu='{{1, 2}}') if tier == 'quick' else dict(Fuel=4, MaxQ=2),
                        vacuity={'mgr_events': 500, 'completions': 5}, replay=replay,
